@@ -168,7 +168,17 @@ def replay_gen(d):
             os.remove(outp)
         env = goenv()
         env["VERIF_CASE_DIR"] = cases
-        rc, txt = sh(["go", "test", "-tags", "verif", "-vet=off", "-count=1", "-overlay", ov, "-run", "^TestVerifReplay$", "./%s/gen/internal" % meta["key"]], cwd=mod, env=env, timeout=1800)
+        binp = scr.path("bin", "replay.test")
+        rc, txt = sh(["go", "test", "-c", "-tags", "verif", "-vet=off", "-overlay", ov, "-o", binp, "./%s/gen/internal" % meta["key"]], cwd=mod, env=env, timeout=1800)
+        if rc != 0 or not os.path.exists(binp):
+            print("native build failed:", txt[-1500:])
+            return 2
+        # run under an address-space limit: an allocation counterexample ends the process with "out of memory" instead of exhausting the machine
+        rc, txt = sh_limited([binp, "-test.run", "^TestVerifReplay$", "-test.count=1"], cwd=os.path.dirname(binp), env=env, timeout=1800, as_bytes=ALLOC_AS_LIMIT)
+        if not os.path.exists(outp) and ("out of memory" in txt or "cannot allocate memory" in txt):
+            print("process died: runtime out of memory under RLIMIT_AS=%d (input of %s bytes)" % (ALLOC_AS_LIMIT, "a few"))
+            print("REPRODUCED")
+            return 1
         if rc != 0 or not os.path.exists(outp):
             print("native run failed:", txt[-1500:])
             return 2
